@@ -87,7 +87,7 @@ func newHost(w *world, idx int, prog *int64) (*host, error) {
 	if err != nil {
 		return nil, err
 	}
-	for k := 0; k < 2; k++ {
+	for k := 0; k < 4; k++ {
 		name := fmt.Sprintf("Host%dSvc%d", idx, k)
 		im := svc.NewImpl(name)
 		if _, err := h.srv.NewService(name, probe.ProbeObject(im)); err != nil {
@@ -105,7 +105,7 @@ func (h *host) close() {
 }
 
 func c19(c *wk.Ctx) {
-	c.Note("rule", "a directory server plus two service-hosting servers (bus.StandAloneServer over counting listeners, two services each); each round creates a fresh session.NewSession and releases 4-32 goroutines through a barrier, each requesting Proxy(name) (or Object(ref)) for services behind the same and different endpoints, then calling the proxy. Oracle: the process does not crash (child), every request succeeds and the proxy answers f(token); at quiescence (decided by the quiescence detector) each hosting server has at most one open connection from the session, exactly one if it was used. Distinct non-trivial = distinct rounds in which some hosting server accepted at least two connections (the concurrent-dial path really ran).")
+	c.Note("rule", "a directory server plus two service-hosting servers (bus.StandAloneServer over counting listeners, four services each); each round creates a fresh session.NewSession and releases 4-32 goroutines through a barrier, each requesting Proxy(name) (or Object(ref)) for services behind the same and different endpoints, then calling the proxy; 2-6 further waves of 2-8 goroutines then use the same, established session. Oracle: the process does not crash (child), every request succeeds and the proxy answers f(token); at quiescence (decided by the quiescence detector) each hosting server has at most one open connection from the session, exactly one if it was used. Distinct non-trivial = distinct rounds in which some hosting server accepted at least two connections (the concurrent-dial path really ran).")
 	var progress int64
 	var w *world
 	var hosts []*host
@@ -169,7 +169,7 @@ func c19(c *wk.Ctx) {
 					hi = 0
 				}
 				h := hosts[hi]
-				name := h.names[r.Intn(2)]
+				name := h.names[r.Intn(len(h.names))]
 				<-start
 				atomic.StoreInt32(&used[hi], 1)
 				p, err := sess.Proxy(name, 1)
@@ -213,9 +213,57 @@ func c19(c *wk.Ctx) {
 		}
 		close(start)
 		done := make(chan struct{})
-		go func() { wg.Wait(); close(done) }()
+		waves := 2 + rng.Intn(5)
+		waveSeeds := make([]int64, waves)
+		for k := range waveSeeds {
+			waveSeeds[k] = rng.Int63()
+		}
+		var steady int64
+		go func() {
+			wg.Wait()
+			// steady state: further waves of 2-8 goroutines on the SAME session (connections are up), asking
+			// for proxies of different services behind the same endpoints at the same moment
+			for _, ws := range waveSeeds {
+				wr := rand.New(rand.NewSource(ws))
+				n := 2 + wr.Intn(7)
+				var wwg sync.WaitGroup
+				go2 := make(chan struct{})
+				for g := 0; g < n; g++ {
+					wwg.Add(1)
+					r := rand.New(rand.NewSource(wr.Int63()))
+					go func(g int) {
+						defer wwg.Done()
+						h := hosts[r.Intn(len(hosts))]
+						name := h.names[r.Intn(len(h.names))]
+						<-go2
+						p, err := sess.Proxy(name, 1)
+						if err == nil {
+							token := uint64(i)<<32 | uint64(1000+g) | uint64(atomic.AddInt64(&steady, 1))<<16
+							var res string
+							res, err = probe.MakeProbe(sess, p).Work(token, name)
+							if err == nil && res != svc.F(token, name) {
+								err = fmt.Errorf("wrong result %q", res)
+							}
+						}
+						atomic.AddInt64(&progress, 1)
+						if err != nil && strings.Contains(err.Error(), "consumer blocked") {
+							atomic.AddInt64(&overload, 1)
+							return
+						}
+						if err != nil {
+							mu.Lock()
+							viols = append(viols, [2]string{"proxy=error/steady-state", fmt.Sprintf("a request for %s on the established session failed: %v", name, err)})
+							mu.Unlock()
+						}
+					}(g)
+				}
+				close(go2)
+				wwg.Wait()
+			}
+			close(done)
+		}()
 		v, dump := stuck.Wait(done, &progress, 3*time.Minute)
-		detail := map[string]interface{}{"goroutines": G, "same_endpoint": sameEndpoint}
+		detail := map[string]interface{}{"goroutines": G, "same_endpoint": sameEndpoint, "further_waves": waves}
 		if v == stuck.Stuck {
 			detail["dump"] = clipDump(dump)
 			c.Viol("round", i, "request=never-returned/"+wk.PanicSite(dump), "a Proxy/Object request never returned", detail)
@@ -274,6 +322,7 @@ func c19(c *wk.Ctx) {
 			c.Viol("round", i, x[0], x[1], detail)
 		}
 		c.Count("requests", int64(G))
+		c.Count("requests_in_later_waves_on_the_established_session", atomic.LoadInt64(&steady))
 		c.Count("requests_refused_by_server_load_shedding", atomic.LoadInt64(&overload))
 		c.Max("max_connections_accepted_by_one_host_in_a_round", maxAccepted)
 		if maxAccepted >= 2 {
